@@ -50,3 +50,54 @@ Theorem F11_af_pinned_panics : length garbage_p = 188%nat /\ is_bytes garbage_p 
   AF.AdaptationFieldExtension garbage_p = Err E.InvalidPacketLength /\
   AF.SetHasTransportPrivateData garbage_p false = Err E.InvalidPacketLength.
 Proof. split; [reflexivity|]. split; [apply is_bytesb_ok; reflexivity|]. vm_compute. repeat split. Qed.
+
+(* Exactly when the pinned slice getters panic on an arbitrary 188-byte packet: the complement of the
+   guards that c05-guards.patch added. *)
+From Gots Require Import Proofs.AFTotal.
+Lemma pinned_TPD_panic_iff p : length p = 188%nat ->
+  (AFPinned.TransportPrivateData p = Panic <->
+   AF.valid p = Ok tt /\ AF.hasTransportPrivateData p = true /\ 188 < AF.adaptationExtensionStart p).
+Proof. intros HL. assert (LP: len p = 188) by (unfold len; rewrite HL; reflexivity).
+  unfold AFPinned.TransportPrivateData, AF.HasTransportPrivateData, AF.get_flag.
+  destruct (AF.valid p) as [[]|e| |] eqn:V; cbn [bind].
+  - fold (AF.hasTransportPrivateData p). destruct (AF.hasTransportPrivateData p); cbn [negb].
+    + destruct (N.lt_ge_cases 188 (AF.adaptationExtensionStart p)) as [G|G].
+      * rewrite slice_panic by (right; lia). split; [intros _; repeat split; assumption|reflexivity].
+      * rewrite slice_ok by (pose proof (exs_eq p); lia). split; [discriminate|intros (_ & _ & X); lia].
+    + split; [discriminate|intros (_ & X & _); discriminate].
+  - split; [discriminate|intros (X & _); discriminate].
+  - exfalso. destruct (safe_valid p) as [X _]. apply X. exact V.
+  - exfalso. destruct (safe_valid p) as [_ X]. apply X. exact V. Qed.
+
+Lemma pinned_Ext_panic_iff p : length p = 188%nat ->
+  (AFPinned.AdaptationFieldExtension p = Panic <->
+   AF.valid p = Ok tt /\ AF.hasAdaptationFieldExtension p = true /\ 188 < AF.stuffingStart p).
+Proof. intros HL. assert (LP: len p = 188) by (unfold len; rewrite HL; reflexivity).
+  unfold AFPinned.AdaptationFieldExtension, AF.HasAdaptationFieldExtension, AF.get_flag.
+  destruct (AF.valid p) as [[]|e| |] eqn:V; cbn [bind].
+  - fold (AF.hasAdaptationFieldExtension p). destruct (AF.hasAdaptationFieldExtension p); cbn [negb].
+    + destruct (N.lt_ge_cases 188 (AF.stuffingStart p)) as [G|G].
+      * rewrite slice_panic by (right; lia). split; [intros _; repeat split; assumption|reflexivity].
+      * rewrite slice_ok by (pose proof (ss_eq p); pose proof (exs_eq p); pose proof (tps_eq p); lia). split; [discriminate|intros (_ & _ & X); lia].
+    + split; [discriminate|intros (_ & X & _); discriminate].
+  - split; [discriminate|intros (X & _); discriminate].
+  - exfalso. destruct (safe_valid p) as [X _]. apply X. exact V.
+  - exfalso. destruct (safe_valid p) as [_ X]. apply X. exact V. Qed.
+
+(* the function-style accessor of the pinned tree: uint8 wrap-around of offset+dataLength *)
+Lemma pinned_fnTPD_panic_iff p : length p = 188%nat ->
+  (AFPinned.fnTransportPrivateData p = Panic <->
+   bit (nthN p 5) 2 = true /\
+   let off := AF.transportPrivateDataStart p + 1 in
+   let hi := w8 (off + nthN p (AF.transportPrivateDataStart p)) in (hi < off \/ 188 < hi)).
+Proof. intros HL. assert (LP: len p = 188) by (unfold len; rewrite HL; reflexivity). cbv zeta.
+  unfold AFPinned.fnTransportPrivateData. pose proof (tps_le p) as T.
+  assert (W: w8 (AF.transportPrivateDataStart p + 1) = AF.transportPrivateDataStart p + 1) by (unfold w8; apply N.mod_small; lia).
+  rewrite W. destruct (bit (nthN p 5) 2); cbn [negb].
+  - set (hi := w8 (AF.transportPrivateDataStart p + 1 + nthN p (AF.transportPrivateDataStart p))).
+    destruct (N.lt_ge_cases hi (AF.transportPrivateDataStart p + 1)) as [A|A].
+    + rewrite slice_panic by (left; exact A). split; [intros _; split; [reflexivity|left; exact A]|reflexivity].
+    + destruct (N.lt_ge_cases 188 hi) as [B|B].
+      * rewrite slice_panic by (right; lia). split; [intros _; split; [reflexivity|right; exact B]|reflexivity].
+      * rewrite slice_ok by lia. split; [discriminate|intros (_ & [X|X]); lia].
+  - split; [discriminate|intros (X & _); discriminate]. Qed.
